@@ -1,5 +1,5 @@
-(* C11: restart equivalence.  The faithful model refutes the full statement (two defect classes
-   of do_mkdir / do_rm); witnesses below are replayed on the real code by props/c11.py. *)
+(* C11: restart equivalence (full statement as a Definition; proved for histories of read-only
+   operations in Proofs/OverlayReadOnly.v) and the statement of per-operation refinement for C10. *)
 From Coq Require Import List String NArith Bool.
 From FB Require Import Model.Overlay Proofs.OverlayInv.
 Import ListNotations.
@@ -14,58 +14,26 @@ Definition restart_same_view (u : option tree) (ls : list tree) (nx : N) (ops : 
   ser_opt (view (load_all (restart s))) = ser_opt (view (load_all s)).
 Definition C11_full : Prop := forall u ls nx ops, restart_same_view u ls nx ops.
 
-(* D4: rmdir of a lower-only directory, then mkdir of the same name: the whiteout node is
-   "upper only", so do_mkdir does not mark the new directory opaque *)
+(* The two histories that refuted C11_full before the fix: commits 7b264a9 / 2d8d33e in /repo
+   (do_mkdir always makes a directory replacing a whiteout opaque; do_rm asks the parent's lower
+   layers whether they hold the name).  On the repaired model they are instances of C11_full. *)
 Definition w_upper := Dir 493 [] [].
 Definition w_lower := Dir 493 [] [("d", Dir 493 [] [("old", File 1 420 [111] [])])].
 Definition w_ops := [(true, OUnlink ["d"; "old"]); (true, ORmdir ["d"]); (true, OMkdir ["d"] 493)].
 Lemma witness_mkdir :
   let s := run_dumps w_ops (load_all (fresh (Some w_upper) [w_lower] 1000)) in
   ser_opt (view (load_all s)) = "d1ed(d=d1ed(),)" /\
-  ser_opt (view (load_all (restart s))) = "d1ed(d=d1ed(old=f1a4:6f,),)".
-Proof. vm_compute. split; reflexivity. Qed.
-(* second class: an upper file shadowing a lower file is unlinked without leaving a whiteout *)
+  ser_opt (view (load_all (restart s))) = "d1ed(d=d1ed(),)" /\
+  upper s = Some (Dir 493 [] [("d", Dir 493 [("user.fuseoverlayfs.opaque", [121])] [])]).
+Proof. vm_compute. repeat split; reflexivity. Qed.
 Definition w2_upper := Dir 493 [] [("c", File 1 420 [117] [])].
 Definition w2_lower := Dir 493 [] [("c", File 2 420 [108] [])].
 Lemma witness_unlink :
   let s := run_dumps [(true, OUnlink ["c"])] (load_all (fresh (Some w2_upper) [w2_lower] 1000)) in
   ser_opt (view (load_all s)) = "d1ed()" /\
-  ser_opt (view (load_all (restart s))) = "d1ed(c=f1a4:6c,)".
-Proof. vm_compute. split; reflexivity. Qed.
-
-Lemma restart_refuted : ~ C11_full.
-Proof.
-  intros H. pose proof (H (Some w_upper) [w_lower] 1000 w_ops) as H1.
-  assert (E : String.eqb
-                (ser_opt (view (load_all (restart (run_dumps w_ops (load_all (fresh (Some w_upper) [w_lower] 1000)))))))
-                (ser_opt (view (load_all (run_dumps w_ops (load_all (fresh (Some w_upper) [w_lower] 1000)))))) = false)
-    by (vm_compute; reflexivity).
-  apply String.eqb_neq in E. apply E. exact H1.
-Qed.
-
-(* ------------------------------------------------------------------ statements that are NOT proved in general *)
-(* the narrow classes of the two reproduced defects, as triggers on the model state before a step *)
-Definition known_step (s : state) (o : op) : bool :=
-  match o, upper s with
-  | OMkdir p _, Some t => match tget t p with Some Wh => true | _ => false end
-  | OUnlink p, Some t | ORmdir p, Some t =>
-      match tget t p with
-      | Some Wh | None => false
-      | Some _ => match merge (lowers s) with
-                  | Some lv => match tget lv p with Some _ => true | None => false end
-                  | None => false
-                  end
-      end
-  | _, _ => false
-  end.
-Fixpoint known_run (ops : list (bool * op)) (s : state) : bool :=
-  match ops with
-  | [] => false
-  | (d, o) :: r => known_step s o || known_run r (let s1 := run_op o s in if d then load_all s1 else s1)
-  end.
-(* restart equivalence outside the known classes: stated, checked by differential runs, not proved *)
-Definition C11_partial_statement : Prop := forall u ls nx ops,
-  known_run ops (load_all (fresh u ls nx)) = false -> restart_same_view u ls nx ops.
+  ser_opt (view (load_all (restart s))) = "d1ed()" /\
+  upper s = Some (Dir 493 [] [("c", Wh)]).
+Proof. vm_compute. repeat split; reflexivity. Qed.
 
 (* C10, per-operation refinement: every step changes the client's view as an ordinary file system
    step would, and returns the same result.  The faithful model refutes the full statement
